@@ -64,6 +64,25 @@ Definition call_permitted (callee_method_safe caller_deployed : bool) (caller_pe
   else if caller_deployed then can_call caller_perms c m
   else true.
 
+(* ---- which manifest the gate consults when the executing contract changed itself ----
+   callInternal: from hard-fork Domovoi on, the manifest the executing context was LOADED with (ctx.GetManifest());
+   before it, the contract's CURRENT state in ContractManagement, and when the lookup fails (the contract destroyed
+   itself earlier in the invocation) the check is not made at all — that lookup-gated form is consensus history. *)
+Definition manifest_for (domovoi : bool) (loaded : list permission) (current : option (list permission))
+  : option (list permission) :=
+  if domovoi then Some loaded else current.
+
+Definition call_gate (domovoi callee_method_safe caller_deployed : bool)
+                     (loaded : list permission) (current : option (list permission))
+                     (c : callee) (m : string) : bool :=
+  if callee_method_safe then true
+  else if caller_deployed then
+    match manifest_for domovoi loaded current with
+    | Some ps => can_call ps c m
+    | None => true
+    end
+  else true.
+
 (* ---- specification: the declarative reading of the property text ---- *)
 Definition desc_matches (d : desc) (c : callee) : Prop :=
   match d with
